@@ -96,8 +96,16 @@ claim('C12', 'exploration', TECH + ': INP(units, version) restarts placed inside
       E2_NOTE + ' Comparison uses to_dict of both models (WNTR code on both sides; C13 and the mirror views of C14 check to_dict independently).',
       'DESIGN.md section 5 (C12)')
 
+claim('C15', 'exploration', TECH + ': seeded add/remove/re-add/set-value histories on wntr.sim.aml.Model with evaluator-order perturbation, against an independent AST value and forward-mode derivative',
+      'Histories of 6-30 operations (variables, parameters, shared sub-expressions, constraints from seeded expression trees over every supported operator incl. reflected operators, '
+      'folding shapes and nested powers, conditional constraints with 1-4 inequality branches, ConstraintDicts attached before/after filling, removal and re-adding, refused duplicate '
+      'names, values set exactly on branch bounds, allocation noise) run on the real model; at every evaluation point (made square with filler constraints, set_structure called) '
+      'residuals, Jacobian entries, get_x and both index permutations are compared with the harness evaluation of the same trees.',
+      'Trusted: the harness AST evaluator and its mirror of the operator shortcuts (wsim/amlsim.py), Python float arithmetic. Values stay inside the domain of definition and away from kinks; '
+      'trees have depth <= 4. A clean batch is evidence, not proof.', 'DESIGN.md section 6 (C15)')
+
 _PENDING = 'check not built yet in this session (planned, see DESIGN.md section 11); not claimed until it runs clean'
-for _p in ['C03', 'C15']:
+for _p in ['C03']:
     NOT_APPLICABLE[_p] = _PENDING
 NOT_APPLICABLE['C17'] = 'pure total functions of (value, unit, parameter): no state, clock, I/O or failure mode for a schedule or fault to act on; deterministic simulation has nothing to vary (DESIGN.md section 7)'
 NOT_APPLICABLE['C18'] = 'pure function of (graph, valve layer) returning a labelling: nothing evolves, fails or persists (DESIGN.md section 7)'
